@@ -108,8 +108,12 @@ func (h *builderHandler) note(err error) {
 func (h *builderHandler) done() {
 	if h.depth == 0 {
 		h.docs = append(h.docs, h.b.Result())
-		h.b = alt.Builder{}
-		h.b.Reset()
+		if feBuilderReset {
+			h.b.Reset() // one Builder for the whole token stream: earlier results must survive later documents
+		} else {
+			h.b = alt.Builder{}
+			h.b.Reset()
+		}
 	}
 }
 
@@ -240,6 +244,10 @@ var feUsed int
 // document is parsed, so in callback mode the executors copy each document inside the callback; in channel
 // mode the parsers switch Reuse off themselves and the documents are read after the call, as always.
 var feReuse bool
+
+// feBuilderReset: the adapter keeps one alt.Builder for a whole token stream and calls Reset between documents
+// (else a new Builder per document).
+var feBuilderReset bool
 
 var (
 	// (with line feeds and multi-byte characters: the line / column bookkeeping has a past too)
